@@ -504,6 +504,10 @@ func (t *taintState) bounds(v ssa.Value, at ssa.Instruction, extra []fact, depth
 		case token.ADD:
 			alo, ahi := t.bounds(x.X, at, extra, depth+1)
 			blo, bhi := t.bounds(x.Y, at, extra, depth+1)
+			if wraps {
+				// a sum with an operand that has no upper bound can wrap to a negative value: no lower bound either
+				return lo, hi
+			}
 			return lo || (alo && blo), hi || (ahi && bhi)
 		case token.SUB:
 			alo, ahi := t.bounds(x.X, at, extra, depth+1)
@@ -529,6 +533,9 @@ func (t *taintState) bounds(v ssa.Value, at ssa.Instruction, extra []fact, depth
 			if x.Op == token.REM || x.Op == token.AND {
 				// bounded by the untainted/bounded right operand (for non-negative left)
 				return lo || (alo && blo), hi || bhi || ahi
+			}
+			if wraps {
+				return lo, hi
 			}
 			return lo || (alo && blo), hi || (ahi && bhi)
 		}
